@@ -296,6 +296,7 @@ func (c *RetryClient) SetClient(ctx context.Context, cli *BaseClient) {
 	go func() {
 		connected := false
 		ctx := context.Background()
+		var chConnSwitchConnected chan struct{} // chConnSwitch of the client whose Connect has returned
 
 	L_TASK:
 		for {
@@ -310,6 +311,7 @@ func (c *RetryClient) SetClient(ctx context.Context, cli *BaseClient) {
 					case _, ok := <-chConnectErr:
 						if !ok {
 							connected = true
+							chConnSwitchConnected = chConnSwitch
 							continue L_TASK
 						}
 					case <-chConnSwitch:
@@ -325,6 +327,12 @@ func (c *RetryClient) SetClient(ctx context.Context, cli *BaseClient) {
 				connected = false
 				continue
 			default:
+			}
+			if chConnSwitch != chConnSwitchConnected {
+				// Client was replaced by SetClient while a task was running; wait its Connect.
+				c.mu.Unlock()
+				connected = false
+				continue
 			}
 
 			if len(c.taskQueue) == 0 {
